@@ -162,7 +162,10 @@ def rule_fmt(ctx: Ctx) -> RuleResult:
 
         vv = inline_locals(f, v, r, depth=1) if isinstance(v, ast.Name) else v
         if isinstance(vv, ast.BoolOp) and isinstance(vv.op, ast.Or):
-            ok = _is_empty_sid(vv.values[-1]) and isinstance(vv.values[0], ast.Call) and norm(vv.values[0].func) == "_sid.get_with"
+            first = vv.values[0]
+            if isinstance(first, ast.Name):
+                first = inline_locals(f, first, r, depth=1)
+            ok = _is_empty_sid(vv.values[-1]) and isinstance(first, ast.Call) and norm(first.func) == "_sid.get_with"
         if ok:
             res.ok(f"NextGetter: `{norm(r)}`", "`_sid.get_with(version=...) or Sid()`: only the version changes; an invalid result becomes the empty Sid")
         else:
